@@ -269,8 +269,7 @@ fn take_next_token(text: &str) -> Option<(usize, AstKind)> {
                 .take_while(|b| b.is_ascii_digit())
                 .count();
             if len < text.len() && text.as_bytes()[len] == b'.' {
-                let decimal_len = text
-                    .as_bytes()
+                let decimal_len = text.as_bytes()[len + 1..]
                     .iter()
                     .take_while(|b| b.is_ascii_digit())
                     .count();
@@ -518,6 +517,17 @@ mod tests {
     }
 
     // https://github.com/googlefonts/fontc/issues/948
+    #[test]
+    fn glyphs_number_value_with_decimals() {
+        // used to slice past the end of the token
+        for fea in ["${x-12.5}", "${x-1.}", "${x-1.55}"] {
+            let (_out, errors, errstr) = debug_parse_output(fea, |parser| {
+                expect_glyphs_number_value(parser, TokenSet::EMPTY);
+            });
+            assert!(errors.is_empty(), "{errstr}");
+        }
+    }
+
     #[test]
     fn glyphs_value_syntax() {
         let fea = "<0 $hi 0 0>";
